@@ -181,7 +181,7 @@ func histCheck(prop, tier, level string) int {
 		specs = append(specs, nsqd.MicroSpec{State: "inflight", MemQ: 10, Ops: []string{"fin1", "rdy2", "pub"}})
 		// ... and of the counters under plain consumer concurrency (two connections)
 		for _, st := range []string{"expired", "inflight", "held2"} {
-			for _, pr := range pairs([]string{"fin1", "req1", "touch1", "scan", "rdy2", "fin2", "req2"}) {
+			for _, pr := range pairs([]string{"fin1", "req1", "touch1", "scan", "rdy2", "rdy2_2", "fin2", "req2"}) {
 				if realistic(pr) {
 					specs = append(specs, nsqd.MicroSpec{State: st, MemQ: 10, Ops: pr})
 				}
